@@ -756,6 +756,31 @@ func ruleG1(c *Ctx, only string, floor int) {
 					continue
 				}
 			}
+			if fv, isFV := ac.rootVal.(*ssa.FreeVar); isFV {
+				if root, k, isConst := capturedConstSlot(s, fv); isConst && loadsTo(w.addr) == 1 && !multiInstance(s.kind, s.parent, s.at) {
+					rk := root + "@" + core.FnName(s.top)
+					if constIdx[rk] == nil {
+						constIdx[rk] = map[int64][]string{}
+					}
+					constIdx[rk][k] = append(constIdx[rk][k], key)
+					facts = append(facts, fmt.Sprintf("constant slot %s[%d], captured as a pointer", root, k))
+					continue
+				}
+				if slot, loads := capturedOwnSlot(s, fv), loadsTo(w.addr); slot != "" {
+					if loads == 1 {
+						facts = append(facts, fmt.Sprintf("own slot %s, taken by the spawning loop for this goroutine and captured as a pointer", slot))
+						continue
+					}
+					if loads == 2 && freshThroughCapture(s.target, fv) {
+						facts = append(facts, fmt.Sprintf("object freshly allocated by this goroutine into its own slot %s (captured as a pointer)", slot))
+						continue
+					}
+				}
+			}
+			if ac.firstIdx == nil && ownWindow(oc, w.addr) {
+				facts = append(facts, fmt.Sprintf("own window of %s (%s into a view whose lower bound is per-goroutine)", ac.root, w.how))
+				continue
+			}
 			if ac.firstIdx == nil {
 				bad = true
 				c.Bad("G1", key, w.at.Pos(), fmt.Sprintf("goroutine writes shared %s directly (%s at %s): not an element of a per-goroutine slot", ac.root, w.how, c.P.Pos(w.at.Pos())))
@@ -1192,4 +1217,183 @@ func perInstanceView(o *ownCtx, addr ssa.Value) bool {
 		}
 	}
 	return false
+}
+
+// ownWindow: the value written through is itself a view base[lo:...] of shared memory whose lower bound is a
+// per-instance value of the worker (a bulk copy into the worker's own window).
+func ownWindow(o *ownCtx, addr ssa.Value) bool {
+	base := addr
+	for k := 0; k < 4; k++ {
+		sl, isSl := base.(*ssa.Slice)
+		if !isSl {
+			if ld, isLd := base.(*ssa.UnOp); isLd && ld.Op == token.MUL {
+				if cell, isCell := ld.X.(*ssa.Alloc); isCell {
+					if sts := storesInto(cell); len(sts) == 1 {
+						base = sts[0].Val
+						continue
+					}
+				}
+			}
+			return false
+		}
+		if sl.Low != nil && o.own(sl.Low) && o.perInstance(sl.Low) {
+			return true
+		}
+		base = sl.X
+	}
+	return false
+}
+
+// loadsTo counts the pointer/slice-header loads on the way from an address to its root.
+func loadsTo(v ssa.Value) int {
+	n := 0
+	for d := 0; d < 40; d++ {
+		switch x := v.(type) {
+		case *ssa.IndexAddr:
+			v = x.X
+		case *ssa.FieldAddr:
+			v = x.X
+		case *ssa.Slice:
+			v = x.X
+		case *ssa.ChangeType:
+			v = x.X
+		case *ssa.Convert:
+			v = x.X
+		case *ssa.UnOp:
+			if x.Op != token.MUL {
+				return n
+			}
+			n++
+			v = x.X
+		default:
+			return n
+		}
+	}
+	return n
+}
+
+// capturedOwnSlot: the captured variable is a local of the spawning loop's body, assigned once, holding &X[i] with i
+// that loop's own variable: a different slot for every goroutine spawned. Returns a description of the slot, or "".
+func capturedOwnSlot(s *spawnSite, fv *ssa.FreeVar) string {
+	if s.parent == nil || s.target == nil || s.at == nil {
+		return ""
+	}
+	k := -1
+	for i, f := range s.target.FreeVars {
+		if f == fv {
+			k = i
+		}
+	}
+	if k < 0 {
+		return ""
+	}
+	var mc *ssa.MakeClosure
+	core.AllInstrs(s.parent, func(i ssa.Instruction) {
+		if m, ok := i.(*ssa.MakeClosure); ok && m.Fn == ssa.Value(s.target) {
+			mc = m
+		}
+	})
+	if mc == nil || k >= len(mc.Bindings) {
+		return ""
+	}
+	cell, ok := mc.Bindings[k].(*ssa.Alloc)
+	if !ok {
+		return ""
+	}
+	sts := storesInto(cell)
+	if len(sts) != 1 {
+		return ""
+	}
+	cl := loopOf(countedLoops(s.parent), mc.Block())
+	if cl == nil || cl.step == 0 || !cl.loop.Blocks[cell.Block()] || !cl.loop.Blocks[sts[0].Block()] {
+		return ""
+	}
+	// the cell must not be handed to anything but its store and closures of this loop body
+	ia, ok := sts[0].Val.(*ssa.IndexAddr)
+	if !ok {
+		return ""
+	}
+	idx := core.StripConv(ia.Index)
+	if idx != cl.phi {
+		// `i := i` copy of the loop variable made in the same iteration
+		ld, isLd := idx.(*ssa.UnOp)
+		if !isLd || ld.Op != token.MUL {
+			return ""
+		}
+		ic, isCell := ld.X.(*ssa.Alloc)
+		if !isCell || !cl.loop.Blocks[ic.Block()] {
+			return ""
+		}
+		ists := storesInto(ic)
+		if len(ists) != 1 || core.StripConv(ists[0].Val) != cl.phi {
+			return ""
+		}
+	}
+	return classifyAddr(ia.X).root + "[i]"
+}
+
+// freshThroughCapture: the spawned function stores a freshly made object through the captured pointer itself
+// (*p = make(...)) before using what the slot holds.
+func freshThroughCapture(target *ssa.Function, fv *ssa.FreeVar) bool {
+	found := false
+	for _, f := range core.Family(target) {
+		core.AllInstrs(f, func(i ssa.Instruction) {
+			st, ok := i.(*ssa.Store)
+			if !ok {
+				return
+			}
+			ld, isLd := st.Addr.(*ssa.UnOp)
+			if !isLd || ld.Op != token.MUL || ld.X != ssa.Value(fv) {
+				return
+			}
+			switch v := st.Val.(type) {
+			case *ssa.MakeSlice, *ssa.Alloc, *ssa.MakeMap:
+				found = true
+			case *ssa.Slice:
+				if _, isAlloc := v.X.(*ssa.Alloc); isAlloc {
+					found = true
+				}
+			}
+		})
+	}
+	return found
+}
+
+// capturedConstSlot: the captured variable is a local assigned once with &X[k], k a constant.
+func capturedConstSlot(s *spawnSite, fv *ssa.FreeVar) (string, int64, bool) {
+	if s.parent == nil || s.target == nil {
+		return "", 0, false
+	}
+	k := -1
+	for i, f := range s.target.FreeVars {
+		if f == fv {
+			k = i
+		}
+	}
+	var mc *ssa.MakeClosure
+	core.AllInstrs(s.parent, func(i ssa.Instruction) {
+		if m, ok := i.(*ssa.MakeClosure); ok && m.Fn == ssa.Value(s.target) {
+			mc = m
+		}
+	})
+	if k < 0 || mc == nil || k >= len(mc.Bindings) {
+		return "", 0, false
+	}
+	cell, ok := mc.Bindings[k].(*ssa.Alloc)
+	if !ok {
+		return "", 0, false
+	}
+	sts := storesInto(cell)
+	if len(sts) != 1 {
+		return "", 0, false
+	}
+	ia, ok := sts[0].Val.(*ssa.IndexAddr)
+	if !ok {
+		return "", 0, false
+	}
+	c, isK := core.ConstInt(ia.Index)
+	if !isK {
+		return "", 0, false
+	}
+	return classifyAddr(ia.X).root, c, true
 }
